@@ -61,17 +61,30 @@ fn lex_str(code: usize) -> String {
 
 /// identifier of a lexical form: the smallest code written that way
 fn lex_of_str(s: &str) -> String {
-    match (0..POOL + 8).find(|c| lex_str(*c) == s) {
-        Some(c) => c.to_string(),
-        None => format!("?{}", hex(s.as_bytes())),
+    if let Some(c) = (0..POOL).find(|c| lex_str(*c) == s) {
+        return c.to_string();
     }
+    // the IRIs beyond the pool: `http://ex.org/n<code>`
+    if let Some(k) = s.strip_prefix("http://ex.org/n").and_then(|k| k.parse::<usize>().ok()) {
+        if k >= POOL && lex_str(k) == s {
+            return k.to_string();
+        }
+    }
+    format!("?{}", hex(s.as_bytes()))
 }
 
 fn code_of(t: &Term) -> String {
-    match (0..POOL + 8).find(|c| &sterm(*c) == t) {
-        Some(c) => c.to_string(),
-        None => format!("?{}", hex(t.to_string().as_bytes())),
+    if let Some(c) = (0..POOL).find(|c| &sterm(*c) == t) {
+        return c.to_string();
     }
+    if let Term::Iri(i) = t {
+        if let Some(k) = i.as_str().strip_prefix("http://ex.org/n").and_then(|k| k.parse::<usize>().ok()) {
+            if k >= POOL && &sterm(k) == t {
+                return k.to_string();
+            }
+        }
+    }
+    format!("?{}", hex(t.to_string().as_bytes()))
 }
 
 /// a constant as SPARQL text
@@ -492,7 +505,7 @@ fn show_result(r: &QueryResult, ordered: &[String]) -> String {
             .map(|row| {
                 let k = ordered
                     .iter()
-                    .map(|kv| match cols.iter().position(|c| c == kv) {
+                    .map(|kv| match cols.iter().rposition(|c| c == kv) {
                         Some(i) if row.len() == cols.len() => show_cell(&row[i]),
                         _ => "~".to_string(),
                     })
@@ -614,11 +627,115 @@ fn scan_order(store: &RdfStore) -> String {
     if v.is_empty() { "-".into() } else { v.join(",") }
 }
 
+// ------------------------------------------------------------------ the translator's plan, mirrored
+// (only to keep the generator inside the domain the row-wise Lean model covers: a UNION whose
+// branches have different numbers of columns is modelled at the top of the WHERE clause only)
+
+#[derive(Clone, Debug)]
+enum Plan {
+    Unit,
+    Scan(TP),
+    Join(Box<Plan>, Box<Plan>),
+    LeftJoin(Box<Plan>, Box<Plan>),
+    Union(Box<Plan>, Box<Plan>),
+    Filter(Box<Plan>),
+}
+
+fn unwrap_g(g: &[Elem]) -> Vec<Elem> {
+    let mut out = vec![];
+    for e in g {
+        match e {
+            Elem::Triples(ts) => out.push(Elem::Triples(ts.clone())),
+            Elem::Optional(g) => out.push(Elem::Optional(unwrap_g(g))),
+            Elem::Union(a, b) => out.push(Elem::Union(unwrap_g(a), unwrap_g(b))),
+            Elem::Group(g) => {
+                let u = unwrap_g(g);
+                if u.len() == 1 { out.extend(u) } else { out.push(Elem::Group(u)) }
+            }
+            Elem::Filter(e) => out.push(Elem::Filter(e.clone())),
+        }
+    }
+    out
+}
+
+fn join_p(a: Plan, b: Plan) -> Plan {
+    match (a, b) {
+        (Plan::Unit, b) => b,
+        (a, Plan::Unit) => a,
+        (a, b) => Plan::Join(Box::new(a), Box::new(b)),
+    }
+}
+
+fn assemble(g: &[Elem]) -> Plan {
+    let mut basic = Plan::Unit;
+    let mut opts = vec![];
+    let mut filters = 0;
+    for e in g {
+        match e {
+            Elem::Triples(ts) => {
+                for t in ts {
+                    basic = join_p(basic, Plan::Scan(t.clone()));
+                }
+            }
+            Elem::Optional(g) => opts.push(assemble(g)),
+            Elem::Union(a, b) => basic = join_p(basic, Plan::Union(Box::new(assemble(a)), Box::new(assemble(b)))),
+            Elem::Group(g) => basic = join_p(basic, assemble(g)),
+            Elem::Filter(_) => filters += 1,
+        }
+    }
+    let mut p = basic;
+    for o in opts {
+        p = match p {
+            Plan::Unit => o,
+            p => Plan::LeftJoin(Box::new(p), Box::new(o)),
+        };
+    }
+    if filters > 0 { Plan::Filter(Box::new(p)) } else { p }
+}
+
+fn trans_code(g: &[Elem]) -> Plan {
+    assemble(&unwrap_g(g))
+}
+
+fn pat_cols(p: &Plan) -> Vec<usize> {
+    match p {
+        Plan::Unit => vec![],
+        Plan::Scan(t) => t.iter().filter_map(|x| if let PT::Var(v) = x { Some(*v) } else { None }).collect(),
+        Plan::Join(a, b) | Plan::LeftJoin(a, b) => {
+            let mut l = pat_cols(a);
+            let r: Vec<usize> = pat_cols(b).into_iter().filter(|v| !l.contains(v)).collect();
+            l.extend(r);
+            l
+        }
+        Plan::Union(a, _) => pat_cols(a),
+        Plan::Filter(a) => pat_cols(a),
+    }
+}
+
+fn ragged_ok(top: bool, p: &Plan) -> bool {
+    match p {
+        Plan::Unit | Plan::Scan(_) => true,
+        Plan::Join(a, b) | Plan::LeftJoin(a, b) => ragged_ok(false, a) && ragged_ok(false, b),
+        Plan::Filter(a) => ragged_ok(top, a),
+        Plan::Union(a, b) => (top || pat_cols(a).len() == pat_cols(b).len()) && ragged_ok(top, a) && ragged_ok(top, b),
+    }
+}
+
+fn top_ragged(p: &Plan) -> bool {
+    match p {
+        Plan::Filter(a) => top_ragged(a),
+        Plan::Union(a, b) => pat_cols(a).len() != pat_cols(b).len() || top_ragged(a) || top_ragged(b),
+        _ => false,
+    }
+}
+
 // ------------------------------------------------------------------ generation
 
 struct Gen {
     r: Rng,
     nv: usize,
+    /// variable ↦ the term it stands for in the witness match the patterns are generalised from
+    bind: Vec<Option<usize>>,
     data: Vec<(usize, usize, usize)>,
     subj: Vec<usize>,
     pred: Vec<usize>,
@@ -636,14 +753,47 @@ impl Gen {
     fn pos(&mut self, pool: &[usize], p_var: u64) -> PT {
         if self.r.chance(p_var, 100) { self.var() } else { PT::Const(*self.r.pick(pool)) }
     }
+    /// a position holding term `c` of a data triple, as a variable that stands for `c` (so that a
+    /// block of patterns keeps at least one joint match) or as the constant
+    fn generalise(&mut self, c: usize, p_var: u64) -> PT {
+        if !(is_blank(c) || self.r.chance(p_var, 100)) {
+            return PT::Const(c);
+        }
+        if let Some(v) = (0..self.nv).find(|v| self.bind[*v] == Some(c)) {
+            if self.r.chance(9, 10) {
+                return PT::Var(v);
+            }
+        }
+        let free: Vec<usize> = (0..self.nv).filter(|v| self.bind[*v].is_none()).collect();
+        if !free.is_empty() {
+            let v = *self.r.pick(&free);
+            self.bind[v] = Some(c);
+            return PT::Var(v);
+        }
+        if is_blank(c) { self.var() } else { PT::Const(c) }
+    }
     /// a triple pattern: mostly a data triple with some positions turned into variables (so that
     /// it matches), otherwise arbitrary constants (which mostly do not occur)
     fn tp(&mut self, linear: bool) -> TP {
         loop {
-            let t: TP = if !self.data.is_empty() && self.r.chance(3, 4) {
-                let d = *self.r.pick(&self.data.clone());
-                let mut mk = |g: &mut Gen, c: usize, p_var: u64| if is_blank(c) || g.r.chance(p_var, 100) { g.var() } else { PT::Const(c) };
-                [mk(self, d.0, 70), mk(self, d.1, 30), mk(self, d.2, 60)]
+            let t: TP = if !self.data.is_empty() && self.r.chance(4, 5) {
+                // prefer a triple that shares a term with what is bound already
+                let bound: Vec<usize> = self.bind.iter().flatten().cloned().collect();
+                let linked: Vec<(usize, usize, usize)> = self.data.iter().filter(|d| bound.contains(&d.0) || bound.contains(&d.2)).cloned().collect();
+                let d = if !linked.is_empty() && self.r.chance(3, 4) { *self.r.pick(&linked) } else { *self.r.pick(&self.data.clone()) };
+                let save = self.bind.clone();
+                let t = [self.generalise(d.0, 70), self.generalise(d.1, 25), self.generalise(d.2, 60)];
+                if linear {
+                    let vs: Vec<usize> = t.iter().filter_map(|p| if let PT::Var(v) = p { Some(*v) } else { None }).collect();
+                    let mut dd = vs.clone();
+                    dd.sort();
+                    dd.dedup();
+                    if dd.len() != vs.len() {
+                        self.bind = save;
+                        continue;
+                    }
+                }
+                t
             } else {
                 let (sp, pp, op) = (self.subj.clone(), self.pred.clone(), self.obj.clone());
                 [self.pos(&sp, 75), self.pos(&pp, 35), self.pos(&op, 65)]
@@ -717,7 +867,14 @@ impl Gen {
                 6 | 7 => {
                     let a = self.group(depth - 1);
                     // often the same shape with other constants, so that the columns line up
-                    let b = if self.r.chance(1, 2) { self.retarget(&a) } else { self.group(depth - 1) };
+                    let mut b = if self.r.chance(1, 2) { self.retarget(&a) } else { self.group(depth - 1) };
+                    // below a join the branches must have equally many columns (see the Lean driver)
+                    let (mut va, mut vb) = (vec![], vec![]);
+                    grp_vars(&a, &mut va);
+                    grp_vars(&b, &mut vb);
+                    if va.len() != vb.len() || has_nonlinear(&a) || has_nonlinear(&b) {
+                        b = self.retarget(&a);
+                    }
                     g.push(Elem::Union(a, b));
                 }
                 _ => {
@@ -753,6 +910,25 @@ impl Gen {
                 other => other.clone(),
             })
             .collect()
+    }
+    /// every UNION gets a second branch of the same shape as the first (same columns)
+    fn align_unions(&mut self, g: &mut Vec<Elem>) {
+        for e in g.iter_mut() {
+            match e {
+                Elem::Optional(g) | Elem::Group(g) => self.align_unions(g),
+                Elem::Union(a, b) => {
+                    self.align_unions(a);
+                    *b = self.retarget(a);
+                }
+                _ => {}
+            }
+        }
+    }
+    /// keep the line inside the modelled domain
+    fn in_domain(&mut self, g: &mut Vec<Elem>) {
+        if !ragged_ok(true, &trans_code(g)) {
+            self.align_unions(g);
+        }
     }
     /// Give every triple pattern a constant subject or predicate: the scans then read an index
     /// vector (insertion order). A scan of the primary hash set comes in an order that differs
@@ -865,6 +1041,24 @@ pub fn generate(seed: u64, cases: usize, out: &mut Vec<String>) {
     let mut r = Rng::new(seed ^ 0x73_7061_7271);
     for c in 0..cases {
         out.push(format!("# case {} seed {}", c, seed));
+        if r.chance(1, 150) {
+            // more rows than one scan chunk (1024) / one join chunk (2048) holds
+            let m = r.range(1030, 1100) as usize;
+            let mut big: Vec<(usize, usize, usize)> = (0..m).map(|i| (100 + i, 2, 100 + (i * 7 + 3) % m)).collect();
+            big.push((100, 14, 101));
+            big.push((101, 14, 0));
+            let ts = triples_arg(&big);
+            let io = if r.chance(1, 2) { "1" } else { "0" };
+            let off = r.range(1015, 1028);
+            out.push(format!("sparql sel {} {} - 3 0;*;-;{};5;T[v0.c2.v1]", io, ts, off));
+            out.push(format!("sparql chk {} {} - 3 0;*;-;{};5;T[v0.c2.v1]", io, ts, off));
+            out.push(format!("sparql sel {} {} - 3 0;1,0;1d,0a;{};3;T[v0.c2.v1]", io, ts, off - 1000));
+            out.push(format!("sparql sel {} {} - 4 0;0,2;-;{};4;T[v0.c2.v1]O{{T[v0.c14.v2]}}", io, ts, m - 3));
+            out.push(format!("sparql cnt {} {} - 4 0;2;3;-;-;-;-;T[v0.c2.v1]O{{T[v0.c14.v2]}}", io, ts));
+            out.push(format!("sparql cnt {} {} - 4 1;1;3;-;-;-;-;T[v0.c2.v1/v1.c2.v2]", io, ts));
+            out.push(format!("sparql upd {} {} - 2 MO[v0.c2.v1][v1.c14.v0]{{T[v0.c2.v1]F(l(v0,c1))}}", io, ts));
+            continue;
+        }
         let data = gen_data(&mut r);
         let io = if r.chance(1, 2) { "1" } else { "0" };
         let ts = triples_arg(&data);
@@ -872,6 +1066,7 @@ pub fn generate(seed: u64, cases: usize, out: &mut Vec<String>) {
         let mut g = Gen {
             r: Rng::new(r.next()),
             nv,
+            bind: vec![None; nv],
             data: data.clone(),
             subj: vec![0, 1, 3, 13],
             pred: vec![2, 3, 0, 14],
@@ -881,14 +1076,29 @@ pub fn generate(seed: u64, cases: usize, out: &mut Vec<String>) {
         for _ in 0..n_lines {
             // the scan-order field is `-` (insertion order): see `index_ordered`
             let head = format!("{} {} - {}", io, ts, nv + 1);
+            g.bind = vec![None; nv];
             match r.below(100) {
                 0..=59 => {
-                    let mut grp = g.group(2);
+                    let mut grp = if r.chance(1, 12) {
+                        // a UNION of branches with different variables as the whole pattern
+                        let (a, b) = (g.group(0), g.group(1));
+                        vec![Elem::Union(a, b)]
+                    } else {
+                        g.group(2)
+                    };
+                    let mut slice = r.chance(1, 3);
+                    if has_optional(&grp) || slice {
+                        g.index_ordered(&mut grp);
+                    }
+                    g.in_domain(&mut grp);
+                    // a UNION of different widths is the whole pattern: no modifiers then
+                    let ragged = top_ragged(&trans_code(&grp));
+                    slice = slice && !ragged;
                     let mut vars = vec![];
                     grp_vars(&grp, &mut vars);
                     let distinct = r.chance(1, 5);
                     // projection: `*`, a subset of the variables in scope, rarely one out of scope
-                    let proj: Option<Vec<usize>> = if vars.is_empty() || r.chance(1, 2) {
+                    let proj: Option<Vec<usize>> = if ragged || vars.is_empty() || r.chance(1, 2) {
                         None
                     } else {
                         let mut p: Vec<usize> = vars.iter().filter(|_| r.chance(2, 3)).cloned().collect();
@@ -901,9 +1111,8 @@ pub fn generate(seed: u64, cases: usize, out: &mut Vec<String>) {
                         Some(p)
                     };
                     let visible: Vec<usize> = proj.clone().unwrap_or(vars.clone());
-                    let slice = r.chance(1, 3);
                     // ORDER BY over visible variables; with a slice: over all of them (total keys)
-                    let order: Vec<(usize, bool)> = if visible.is_empty() || !(r.chance(1, 3) || (slice && r.chance(2, 3))) {
+                    let order: Vec<(usize, bool)> = if ragged || visible.is_empty() || !(r.chance(1, 3) || (slice && r.chance(2, 3))) {
                         vec![]
                     } else if slice {
                         let mut ks = visible.clone();
@@ -920,9 +1129,6 @@ pub fn generate(seed: u64, cases: usize, out: &mut Vec<String>) {
                         (None, None)
                     };
                     let sliced = off.is_some() || lim.is_some();
-                    if has_optional(&grp) || sliced {
-                        g.index_ordered(&mut grp);
-                    }
                     let q = format!(
                         "{};{};{};{};{};{}",
                         if distinct { 1 } else { 0 },
@@ -939,6 +1145,11 @@ pub fn generate(seed: u64, cases: usize, out: &mut Vec<String>) {
                 }
                 60..=74 => {
                     let mut grp = g.group(1);
+                    let want_lim = r.chance(1, 2);
+                    if has_optional(&grp) || want_lim {
+                        g.index_ordered(&mut grp);
+                    }
+                    g.in_domain(&mut grp);
                     let mut vars = vec![];
                     grp_vars(&grp, &mut vars);
                     let alias = nv; // a variable that is not used in the pattern
@@ -948,10 +1159,7 @@ pub fn generate(seed: u64, cases: usize, out: &mut Vec<String>) {
                     let mut keys = gb.clone();
                     keys.push(alias);
                     let order: Vec<(usize, bool)> = if r.chance(1, 4) { keys.iter().map(|v| (*v, r.chance(1, 3))).collect() } else { vec![] };
-                    let lim = if !order.is_empty() && r.chance(1, 2) { Some(r.below(4)) } else { None };
-                    if has_optional(&grp) || lim.is_some() {
-                        g.index_ordered(&mut grp);
-                    }
+                    let lim = if !order.is_empty() && want_lim { Some(r.below(4)) } else { None };
                     let q = format!(
                         "{};{};{};{};{};-;{};{}",
                         if distinct { 1 } else { 0 },
@@ -989,6 +1197,7 @@ pub fn generate(seed: u64, cases: usize, out: &mut Vec<String>) {
                             if has_optional(&grp) || has_filter(&grp) {
                                 g.index_ordered(&mut grp);
                             }
+                            g.in_domain(&mut grp);
                             let mut vars = vec![];
                             grp_vars(&grp, &mut vars);
                             let mut tmpl = |gg: &mut Gen, r: &mut Rng| -> Vec<TP> {
